@@ -1137,7 +1137,7 @@ func (x *c07Ctx) specialMuts() []c07Mut {
 		out = append(out, c07Mut{Class: "forge", Kind: k})
 	}
 	if len(T.ContractRequests) > 0 {
-		out = append(out, c07Mut{Class: "forge", Kind: "contract-claim"}, c07Mut{Class: "forge", Kind: "contract-claim-front"})
+		out = append(out, c07Mut{Class: "forge", Kind: "contract-claim"}, c07Mut{Class: "forge", Kind: "contract-claim-front"}, c07Mut{Class: "forge", Kind: "contract-claim-second"})
 	}
 	if x.acct != "" {
 		for _, k := range []string{"acct-outsider", "acct-below", "acct-init-outsider"} {
@@ -1501,6 +1501,59 @@ func (x *c07Ctx) applySpecial(mut c07Mut) c07Special {
 				return nil, nil
 			}))
 			res.tx = f
+		case "contract-claim-second":
+			// a contract transfer paid from two outputs of the contract: the SECOND declared input is replaced by the
+			// victim's output (inputs and declaration), the contract's change grows by the difference
+			claimed, _ := xmodel.ParseContractUtxoInputs(m)
+			outs, _ := xmodel.ParseContractUtxoOutputs(m)
+			if len(claimed) < 2 {
+				res.skip = "contract transfer with fewer than two inputs"
+				return res
+			}
+			old := claimed[1]
+			delta := new(big.Int).Sub(u.Amount, new(big.Int).SetBytes(old.Amount))
+			if delta.Sign() < 0 {
+				res.skip = "victim output too small"
+				return res
+			}
+			for i, in := range m.TxInputs {
+				if bytes.Equal(in.RefTxid, old.RefTxid) && in.RefOffset == old.RefOffset {
+					m.TxInputs[i] = c07InputOf(u)
+				}
+			}
+			claimed[1] = c07InputOf(u)
+			if delta.Sign() > 0 {
+				self := string(old.FromAddr)
+				grown := false
+				for _, o := range outs {
+					if string(o.ToAddr) == self && !grown {
+						was := append([]byte{}, o.Amount...)
+						o.Amount = new(big.Int).Add(new(big.Int).SetBytes(was), delta).Bytes()
+						for _, to := range m.TxOutputs {
+							if string(to.ToAddr) == self && bytes.Equal(to.Amount, was) && !grown {
+								to.Amount = o.Amount
+								grown = true
+							}
+						}
+					}
+				}
+				if !grown {
+					ch := &protos.TxOutput{ToAddr: []byte(self), Amount: delta.Bytes()}
+					outs = append(outs, ch)
+					m.TxOutputs = append(m.TxOutputs, &protos.TxOutput{ToAddr: []byte(self), Amount: delta.Bytes()})
+				}
+			}
+			inVal, _ := xmodel.MarshalMessages(claimed)
+			outVal, _ := xmodel.MarshalMessages(outs)
+			for _, oe := range m.TxOutputsExt {
+				if oe.Bucket == hx.TransientBucket && string(oe.Key) == "ContractUtxo.Inputs" {
+					oe.Value = inVal
+				}
+				if oe.Bucket == hx.TransientBucket && string(oe.Key) == "ContractUtxo.Outputs" {
+					oe.Value = outVal
+				}
+			}
+			x.resign(m, nil)
 		case "contract-claim", "contract-claim-front":
 			if len(m.ContractRequests) == 0 {
 				res.skip = "no contract"
@@ -2079,7 +2132,7 @@ func c07GenBase(rt *rapid.T, nm *hx.NodeMachine) (*c07Base, error) {
 			if err := g.mine(); err != nil {
 				return b, err
 			}
-		case k < 4 && len(nm.PoolState().UtxosOf(hx.VerifContract)) == 0:
+		case k < 4 && len(nm.PoolState().UtxosOf(hx.VerifContract)) < 2:
 			c2 := cfg
 			c2.ContractPct = 0
 			spec, ok := genTxSpec(rt, nm, nm.PoolState(), c2, c07Height(nm), false)
@@ -2172,6 +2225,14 @@ func c07GenBase(rt *rapid.T, nm *hx.NodeMachine) (*c07Base, error) {
 	if len(spec.Prog) > 0 {
 		if cu := s.UtxosOf(hx.VerifContract); len(cu) == 1 && cu[0].Frozen == 0 && rapid.Bool().Draw(rt, "contransfer") {
 			amt := int64(rapid.IntRange(1, int(c07MinI64(cu[0].Amount.Int64(), 50))).Draw(rt, "xferamt"))
+			spec.Prog = append(spec.Prog, hx.Ins{Op: "transfer", To: hx.Ring[rapid.IntRange(0, 5).Draw(rt, "xferto")].Address, Amt: amt})
+		} else if len(cu) == 2 && cu[0].Frozen == 0 && cu[1].Frozen == 0 && rapid.Bool().Draw(rt, "contransfer2") {
+			// the contract owns two outputs: an amount above the larger one needs both, whichever is selected first
+			a, b := cu[0].Amount.Int64(), cu[1].Amount.Int64()
+			if a < b {
+				a, b = b, a
+			}
+			amt := int64(rapid.IntRange(int(a)+1, int(a+b)).Draw(rt, "xferamt2"))
 			spec.Prog = append(spec.Prog, hx.Ins{Op: "transfer", To: hx.Ring[rapid.IntRange(0, 5).Draw(rt, "xferto")].Address, Amt: amt})
 		}
 	}
